@@ -176,3 +176,46 @@ Fixpoint digest_of (ob : list sobs) : digest :=
     | BProc m => mkD (d_rets d) (d_tries d) (d_rels d) (m :: d_procs d)
     end
   end.
+
+(* ---------- Prop-level vocabulary for the theorems (props/C30.v) ---------- *)
+
+(* component-wise, in unbounded arithmetic *)
+Definition fits (h w c : metric) : Prop := (mnum h + mnum w <= mnum c)%N /\ (msize h + msize w <= msize c)%N.
+Definition exceeds (w c : metric) : Prop := (mnum c < mnum w)%N \/ (msize c < msize w)%N.
+Definition covers (h w : metric) : Prop := (mnum w <= mnum h)%N /\ (msize w <= msize h)%N.
+Definition mle (a b : metric) : Prop := (mnum a <= mnum b)%N /\ (msize a <= msize b)%N.
+
+(* what one run of the Acquire loop body must do, given only (held, capacity, weight, deadline, clock) *)
+Inductive decision := DGrant | DRefuse | DBlock.
+Definition decide (h c w : metric) (dl now : Z) : decision :=
+  if fitsb h w c then DGrant
+  else if exceedsb w c || (dl <=? now)%Z then DRefuse
+  else DBlock.
+
+(* events whose weights are Go values (uint32 / uint64) *)
+Definition ev_wf (ev : event) : Prop :=
+  match ev with
+  | ECall _ w _ _ | ETry w | ERelease w => m_wf w
+  | _ => True
+  end.
+
+(* every state the repaired semaphore can be in: any interleaving of calls, releases,
+   terminations, timer callbacks and wake-ups, at any times *)
+Inductive reachable (c : metric) : state -> Prop :=
+| reach_init : reachable c (init c)
+| reach_step st now ev : reachable c st -> ev_wf ev -> reachable c (fst (step true st now ev)).
+
+Definition pending (st : state) : list waiter := waiting st ++ woken st.
+
+(* goroutine ids are unique: an Acquire call never reuses the id of a caller that has not returned *)
+Fixpoint fresh_run (st : state) (tr : list (Z * event)) : Prop :=
+  match tr with
+  | [] => True
+  | (now, ev) :: tr' =>
+    match ev with
+    | ECall id _ _ _ => ~ In id (map wid (pending st))
+    | _ => True
+    end /\ fresh_run (fst (step true st now ev)) tr'
+  end.
+
+Definition times_from (t : Z) (tr : list (Z * event)) : Prop := forall now ev, In (now, ev) tr -> (t <= now)%Z.
